@@ -29,13 +29,14 @@ Definition conn_eqb (a b : conn) : bool :=
   Bool.eqb (req_issued a) (req_issued b) &&
   zlist_eqb (methods a) (methods b) &&
   Bool.eqb (auth_complete a) (auth_complete b) &&
-  Bool.eqb (auth_final a) (auth_final b) &&
   Z.eqb (user a) (user b) &&
   zlist_eqb (deferred a) (deferred b) &&
   list_eqb task_eqb (pending a) (pending b) &&
   Bool.eqb (closed a) (closed b) &&
   Z.eqb (authed a) (authed b) &&
-  Bool.eqb (unsolicited a) (unsolicited b).
+  Bool.eqb (unsolicited a) (unsolicited b) &&
+  Z.eqb (app_events a) (app_events b) &&
+  Bool.eqb (desync a) (desync b).
 
 Definition pair_eqb (a b : Z * Z) : bool := (fst a =? fst b) && (snd a =? snd b).
 
@@ -94,7 +95,8 @@ Definition chk_step (fixed : bool) (s : st) (stp : ostep) : chk_res :=
   match book_obs s1 obs with
   | None => Bad
   | Some s2 =>
-    if (mal || dg) && oclosed then Accept
+    if desync (cn s2) then Accept
+    else if (mal || dg) && oclosed then Accept
     else if dg then Ok s2
     else if list_eqb pair_eqb (strip_conn obs) mo && Bool.eqb (closed (cn s2)) oclosed
          then (if oclosed then Accept else Ok s2)
@@ -142,6 +144,7 @@ Definition predicted_ok (fixed : bool) (s : st) (suffix : list (list (Z * Z * bo
   let '(t, cls, v) := e in
   let '(s1, mo, dg, _) := model_step fixed s [(t, cls, false)] in
   if dg then true
+  else if negb (app_events (cn s1) =? app_events (cn s)) then verdict_eqb v VH     (* an application callback ran *)
   else if closed (cn s1) then verdict_eqb v VF
   else
     let later := closed (cn (run_chunks fixed (note_all s1 (map fst mo)) suffix)) in
